@@ -429,6 +429,18 @@ class LiveWorld:
         self.gens = {}
         self.books = {}
 
+    def add_strategy(self, st):
+        """what BaseFlumine.add_strategy does, without opening streams"""
+        stream_id = self.stream_id
+
+        class _S:
+            def __init__(s, sid):
+                s.stream_id = sid
+
+        st.streams = [_S(stream_id)]
+        self.fw.strategies(st, self.fw.clients, self.fw)
+        self.strategies.append(st)
+
     def add_market_file(self, path):
         stream = FlumineHistoricalGeneratorStream(file_path=path, listener=HistoricListener(max_latency=None), operation="marketSubscription", unique_id=self.stream_id)
         mid = path.rsplit("/", 1)[-1]
